@@ -16,6 +16,10 @@ def add_infos(sc, rnd):
             cands = [d for d in hist_dirs if d == "" or f.startswith(d + "/")]
             at = max(cands, key=len) if cands else ""
             extra.append({"op": "infosf", "at": at, "file": f[len(at) + 1 :] if at else f, "auto_root": rnd.random() < 0.5})
+    # the listing is read on another machine: the dates shown are the recorded ones, whatever the reader's zone
+    for o in extra:
+        if rnd.random() < 0.3:
+            o["tz"] = rnd.choice(["Asia/Tokyo", "America/New_York", "Asia/Kolkata", "<-0330>3:30"])
     # a folder without history
     sc["ops"] = sc["ops"] + extra
     return sc
